@@ -836,14 +836,29 @@ class Tr:
         return '%s <- %s ;; %s' % (outn[0], loop, rest)
 
     def may_return_only(self, node):
+        """a `return` other than `return Err(..)` (which is the monad's `fail` wherever it stands, loops included)"""
         if isinstance(node, tuple):
             if node and node[0] == 'return':
+                r = self.strip(node[1]) if node[1] is not None else None
+                if self.kind == 'result' and r is not None and r[0] == 'call' and r[1] == ('path', ['Err']):
+                    return False
                 return True
             if node and node[0] == 'closure':
                 return False
             return any(self.may_return_only(x) for x in node)
         if isinstance(node, list):
             return any(self.may_return_only(x) for x in node)
+        return False
+
+    def has_break(self, node):
+        if isinstance(node, tuple):
+            if node and node[0] == 'break':
+                return True
+            if node and node[0] in ('closure', 'while', 'whilelet', 'for', 'loop'):
+                return False
+            return any(self.has_break(x) for x in node)
+        if isinstance(node, list):
+            return any(self.has_break(x) for x in node)
         return False
 
     def drain_loop(self, e, env, kv):
@@ -857,7 +872,7 @@ class Tr:
         if not (r[0] == 'path' and len(r[1]) == 1 and r[1][0] in env.v and env.v[r[1][0]][1] == 'deque'):
             raise Untranslatable('while-let: not a local deque')
         dq = r[1][0]
-        if self.may_return(body) or self.assigned(body, env, []):
+        if self.may_return_only(body) or self.has_break(body) or self.assigned(body, env, []):
             raise Untranslatable('while-let body returns, breaks or updates an outer local')
         lt = env.v[dq][0] if scrut[2] == 'pop_front' else '(rev %s)' % env.v[dq][0]
         envb = env.copy()
@@ -870,8 +885,8 @@ class Tr:
     def for_loop(self, e, env, kv):
         """`for PAT in LIST { BODY }` -> acc <- mfor LIST (fun PAT acc => BODY ;; ret acc') acc0, acc = the outer locals BODY updates"""
         pat, it, body = e[1], e[2], e[3]
-        if self.may_return(body):
-            raise Untranslatable('`return` inside a for loop')
+        if self.may_return_only(body) or self.has_break(body):
+            raise Untranslatable('`return` / `break` inside a for loop')
         lt, lty = self.pure(it, env)
         if lty not in ELEM:
             raise Untranslatable('for loop over a value of type %s' % lty)
